@@ -1110,6 +1110,11 @@ func checkC05(c *Ctx) {
 		}
 	}
 
+	// nil-able pointer fields of the syntax tree / parser state (front end, error display, input-variable text)
+	ruleNilFields(c, u, "C05.nilfield", func(file string) bool {
+		return strings.HasPrefix(file, "pkg/syntax/") || strings.HasSuffix(file, "error_printer.go") || strings.HasSuffix(file, "exec_varinput.go")
+	})
+
 	// ---- C05.render : strings.Repeat counts are never negative
 	for _, f := range u.srcFuncs("pkg/exec") {
 		for _, call := range u.callsNamed(f, "strings.Repeat") {
@@ -1203,11 +1208,46 @@ func errorDroppedAt(u *Universe, f *ssa.Function, call ssa.CallInstruction, errV
 			}
 		}
 	}
+	// the error is examined or handed on: passed to a call (wrapping, classification), type-asserted, stored
+	usesErr := func(in ssa.Instruction) bool {
+		switch x := in.(type) {
+		case ssa.CallInstruction:
+			if x == call {
+				return false
+			}
+			for _, a := range x.Common().Args {
+				if carriers[a] {
+					return true
+				}
+				if mi, ok := a.(*ssa.MakeInterface); ok && carriers[mi.X] {
+					return true
+				}
+			}
+		case *ssa.TypeAssert:
+			return carriers[x.X]
+		case *ssa.Store:
+			return carriers[x.Val]
+		}
+		return false
+	}
+	nonNilEdges := map[cfgEdge]bool{}
+	for _, t := range tests {
+		if carriers[t.X] {
+			nonNilEdges[cfgEdge{t.If.Block(), t.NotNil}] = true
+		}
+	}
 	bad := ""
-	seen := map[*ssa.BasicBlock]bool{}
-	var walk func(b *ssa.BasicBlock, from int)
-	walk = func(b *ssa.BasicBlock, from int) {
+	type wkey struct {
+		b      *ssa.BasicBlock
+		tested bool
+	}
+	seen := map[wkey]bool{}
+	var walk func(b *ssa.BasicBlock, from int, tested bool)
+	walk = func(b *ssa.BasicBlock, from int, tested bool) {
 		for i := from; i < len(b.Instrs); i++ {
+			if usesErr(b.Instrs[i]) {
+				return
+			}
 			if ret, ok := b.Instrs[i].(*ssa.Return); ok {
 				prop := false
 				for j := range ret.Results {
@@ -1216,8 +1256,8 @@ func errorDroppedAt(u *Universe, f *ssa.Function, call ssa.CallInstruction, errV
 						if flowsFrom(rv, func(v ssa.Value) bool { return carriers[v] }) {
 							prop = true
 						}
-						// any freshly built error on this path also reports the failure
-						if provablyNonNilError(rv) {
+						// on the branch where the failure is known, any freshly built error reports it
+						if tested && (provablyNonNilError(rv) || isCallValue(rv)) {
 							prop = true
 						}
 					}
@@ -1233,13 +1273,22 @@ func errorDroppedAt(u *Universe, f *ssa.Function, call ssa.CallInstruction, errV
 			}
 		}
 		for _, sc := range b.Succs {
-			if nilEdges[cfgEdge{b, sc}] || seen[sc] {
+			if nilEdges[cfgEdge{b, sc}] {
 				continue
 			}
-			seen[sc] = true
-			walk(sc, 0)
+			t2 := tested || nonNilEdges[cfgEdge{b, sc}]
+			if seen[wkey{sc, t2}] {
+				continue
+			}
+			seen[wkey{sc, t2}] = true
+			walk(sc, 0, t2)
 		}
 	}
-	walk(call.Block(), instrIndex(call)+1)
+	walk(call.Block(), instrIndex(call)+1, false)
 	return bad
+}
+
+func isCallValue(v ssa.Value) bool {
+	_, ok := v.(*ssa.Call)
+	return ok
 }
